@@ -1,13 +1,13 @@
 """C13 - multi-parameter order bookkeeping (scale, merge, permute, vanishing perturbation, substitution)."""
 from .common import Decision, run_units
-from .series_props import specs_product, specs_evals, specs_wiring, fold_canaries
+from .series_props import specs_product, specs_evals, specs_wiring, specs_solver, fold_canaries
 from .relational_common import NAT_LEAN, NAT_LEAN_NH, NAT_NOTE, INSTANCE_NOTE
 from .format_props import specs_keys
 
 
 def check(tier, seed):
     d = Decision("C13", tier, seed)
-    d.add_units(fold_canaries(run_units(specs_product(tier) + specs_evals(tier) + specs_wiring(tier) + specs_keys(tier))))
+    d.add_units(fold_canaries(run_units(specs_product(tier) + specs_evals(tier) + specs_wiring(tier) + specs_keys(tier) + specs_solver(tier))))
     d.add_lean(NAT_LEAN + NAT_LEAN_NH + ["PV.Laws.scaleHom", "PV.Laws.scale_law", "PV.Bridge.coeff_mul_blocks", "PV.Rename.pushHom", "PV.Rename.push_law", "PV.Rename.renameHom", "PV.Rename.rename_law", "PV.Rename.rename_law_injective", "PV.Rename.power_law"])
     d.assumptions += [NAT_NOTE,
                       "scale law: fully mechanised for the concrete model (PV.Laws.scale_law: for block series over any coefficient algebra with a block structure, rational scale factors, "
@@ -25,7 +25,8 @@ def check(tier, seed):
                       "sympy differentiation / substitution used by the Taylor expansion (A-SY3): only the recursion that combines them is under contract"]
     d.explanation = ("Each law is an instance of the machine-checked naturality theorem for the equations extracted from the code; the code-level obligations are the "
                      "multi-index contract of product_by_order / cauchy_dot_product (all parameter counts, symbolic orders), the evaluators' order-uniformity, and the "
-                     "key normalisation of the input formats: _list_to_dict maps perturbation k to the unit vector e_k, _symbolic_keys_to_tuples maps a monomial to its "
+                     "built-in solver being the element-wise division V_ab = Y_ab / (E_a - F_b) (linear in the right-hand side, no threshold on its size: the laws' hypothesis "
+                     "that the solver is a linear map; units contracts.sylvester), and the key normalisation of the input formats: _list_to_dict maps perturbation k to the unit vector e_k, _symbolic_keys_to_tuples maps a monomial to its "
                      "exponent vector in name-sorted symbol order and rejects prefactors, the Taylor recursion of _sympy_to_BlockSeries divides each derivative step "
                      "by the order of the differentiated axis (so the accumulated factor is prod n_k!), _dict_to_BlockSeries keeps keys and values.")
     d.run_battery("rel_battery.py", ["multi"], "8 layouts (<= 3 blocks, n <= 5, Hermitian and non-Hermitian-exact), dense/sparse, 2-3 parameters, total order <= 3-4, "
